@@ -30,9 +30,15 @@ type UDPPlan struct {
 
 func dgramByte(id, i int) byte { return byte(id*41 + i*97 + (i>>8)*13 + 3) }
 
+// senderPort: sender ports include the boundaries of the 16-bit range (the
+// values a range check or a byte-order conversion gets wrong first).
+func senderPort(i int) int {
+	return []int{30000, 65535, 1, 32768, 32767, 255, 256}[i%7] + (i/7)*3
+}
+
 func (w *World) senderAddr(i int) unix.Sockaddr {
 	if w.p.UDP.V6 {
-		sa := &unix.SockaddrInet6{Port: 30000 + i}
+		sa := &unix.SockaddrInet6{Port: senderPort(i)}
 		if i%3 == 0 {
 			copy(sa.Addr[:], net.ParseIP("::1").To16())
 		} else {
@@ -41,7 +47,7 @@ func (w *World) senderAddr(i int) unix.Sockaddr {
 		}
 		return sa
 	}
-	return &unix.SockaddrInet4{Port: 30000 + i, Addr: [4]byte{10, 1, 0, byte(1 + i)}}
+	return &unix.SockaddrInet4{Port: senderPort(i), Addr: [4]byte{10, 1, 0, byte(1 + i)}}
 }
 
 type udpState struct {
